@@ -14,6 +14,8 @@ import (
 func init() { register("C09", checkC09) }
 
 func checkC09(p *Prog, r *Report) {
+	r.rule("C09.id-field: Wrapper.SetID stores through FieldByName(\"ID\") of the wrapped value (the field Check validates by its Go name) and GetID reads the ID from the wrapped value on every call; the Wrapper keeps no ID of its own")
+	checkWrapperID(p, r, "C09")
 	r.rule("C09.check-complete: SoftResource.check, which every accessor runs first, cannot return before its zero-filling loops: the values Less and the filters fetch with Get are typed (shared with C17)")
 	checkSoftCheckComplete(p, r, "C09")
 	r.rule(r3RuleText)
